@@ -5,7 +5,9 @@ import atexit
 
 MARK = b"\xffENCODER-MUST-FAIL"
 BADKEY = "WRITE-MUST-FAIL"
-KINDS = ["read_all", "write1", "write2", "fail_body", "fail_encoder", "fail_flush", "fail_end_write", "read_fail_body", "fail_end_read", "fail_begin_write", "fail_begin_read"]
+KINDS = ["read_all", "write1", "write2", "fail_body", "fail_encoder", "fail_flush", "fail_end_write", "read_fail_body", "fail_end_read", "fail_begin_write", "fail_begin_read",
+         # the body is left by an exception that is NOT an Exception subclass (Ctrl-C in a notebook, sys.exit() caught higher up)
+         "fail_body_interrupt", "fail_body_sysexit", "read_fail_interrupt"]
 TIMEOUT = 5.0
 
 
@@ -62,7 +64,7 @@ def run_session(c, kind: str, keys: list[str], vals: list[bytes]) -> dict:
             restore.append((attr, real))
             with (c.writing(timeout=TIMEOUT) if kind == "fail_begin_write" else c.reading(timeout=TIMEOUT)):
                 raise AssertionError("session body reached although begin_* failed")
-        elif kind in ("read_all", "read_fail_body", "fail_end_read"):
+        elif kind in ("read_all", "read_fail_body", "fail_end_read", "read_fail_interrupt"):
             if kind == "fail_end_read":
                 real = be.end_read
 
@@ -79,6 +81,8 @@ def run_session(c, kind: str, keys: list[str], vals: list[bytes]) -> dict:
                 res["seen"] = seen
                 if kind == "read_fail_body":
                     raise Boom("reader body fails")
+                if kind == "read_fail_interrupt":
+                    raise KeyboardInterrupt("injected")
         else:
             if kind == "fail_end_write":
                 real = be.end_write
@@ -95,9 +99,9 @@ def run_session(c, kind: str, keys: list[str], vals: list[bytes]) -> dict:
                 elif kind in ("write2", "fail_end_write"):
                     c[keys[0]] = vals[0]; res["put_ok"].append(keys[0])
                     c[keys[1]] = vals[1]; res["put_ok"].append(keys[1])
-                elif kind == "fail_body":
+                elif kind in ("fail_body", "fail_body_interrupt", "fail_body_sysexit"):
                     c[keys[0]] = vals[0]; res["put_ok"].append(keys[0])
-                    raise Boom("writer body fails")
+                    raise (Boom("writer body fails") if kind == "fail_body" else KeyboardInterrupt("injected") if kind == "fail_body_interrupt" else SystemExit(3))
                 elif kind == "fail_encoder":
                     c[keys[0]] = vals[0]; res["put_ok"].append(keys[0])
                     c[keys[1]] = MARK
@@ -109,7 +113,7 @@ def run_session(c, kind: str, keys: list[str], vals: list[bytes]) -> dict:
         res["exc"] = "TimeoutError"
         res["acquired"] = False
     except BaseException as e:  # noqa
-        if isinstance(e, (KeyboardInterrupt, SystemExit)):
+        if isinstance(e, (KeyboardInterrupt, SystemExit)) and not kind.endswith(("_interrupt", "_sysexit")):
             raise
         res["exc"] = type(e).__name__
     finally:
